@@ -175,3 +175,52 @@ def num(s):
         return Decimal(f)
     except ValueError:
         return f
+
+
+class ScanDict(dict):
+    """dict whose look-up scans the entries and compares keys component-wise with `==` (so that
+    keys holding symbolic integers / dates split the path instead of being hashed), DESIGN 3.3.
+    Storage is an ordinary dict keyed by the concrete keys the library writes."""
+
+    @staticmethod
+    def _eq(a, b):
+        if isinstance(a, tuple) and isinstance(b, tuple):
+            if len(a) != len(b):
+                return False
+            for x, y in zip(a, b):
+                if not ScanDict._eq(x, y):
+                    return False
+            return True
+        if isinstance(a, tuple) != isinstance(b, tuple):
+            return False
+        if a is None or b is None:
+            return a is b
+        import datetime
+        # the library distinguishes validity kinds by type: an int never equals a date
+        da, db = isinstance(a, datetime.date) or type(a).__name__ == 'SymDate', \
+            isinstance(b, datetime.date) or type(b).__name__ == 'SymDate'
+        if da != db:
+            return False
+        r = (a == b)
+        if r is NotImplemented:
+            r = (b == a)
+        return bool(r)
+
+    def __getitem__(self, key):
+        for k in list(dict.keys(self)):
+            if ScanDict._eq(k, key):
+                return dict.__getitem__(self, k)
+        raise KeyError(key)
+
+    def __contains__(self, key):
+        try:
+            self[key]
+        except KeyError:
+            return False
+        return True
+
+    def get(self, key, default=None):
+        try:
+            return self[key]
+        except KeyError:
+            return default
